@@ -452,9 +452,8 @@ Conversion<Unit::AngularAcceleration, Unit::AngularAcceleration::RevolutionPerSq
 }
 
 template <typename NumericType>
-inline const std::map<Unit::AngularAcceleration,
-                      std::function<void(NumericType* values, const std::size_t size)>>
-    MapOfConversionsFromStandard<Unit::AngularAcceleration, NumericType>{
+inline constexpr auto MapOfConversionsFromStandard<Unit::AngularAcceleration, NumericType>{
+  MakeConversionTable<Unit::AngularAcceleration, NumericType>({
       {Unit::AngularAcceleration::RadianPerSquareSecond,
        Conversions<Unit::AngularAcceleration, Unit::AngularAcceleration::RadianPerSquareSecond>::
            FromStandard<NumericType>},
@@ -502,12 +501,12 @@ inline const std::map<Unit::AngularAcceleration,
       {Unit::AngularAcceleration::RevolutionPerSquareHour,
        Conversions<Unit::AngularAcceleration, Unit::AngularAcceleration::RevolutionPerSquareHour>::
            FromStandard<NumericType>},
+})
 };
 
 template <typename NumericType>
-inline const std::map<Unit::AngularAcceleration,
-                      std::function<void(NumericType* const values, const std::size_t size)>>
-    MapOfConversionsToStandard<Unit::AngularAcceleration, NumericType>{
+inline constexpr auto MapOfConversionsToStandard<Unit::AngularAcceleration, NumericType>{
+  MakeConversionTable<Unit::AngularAcceleration, NumericType>({
       {Unit::AngularAcceleration::RadianPerSquareSecond,
        Conversions<Unit::AngularAcceleration, Unit::AngularAcceleration::RadianPerSquareSecond>::
            ToStandard<NumericType>      },
@@ -553,6 +552,7 @@ inline const std::map<Unit::AngularAcceleration,
       {Unit::AngularAcceleration::RevolutionPerSquareHour,
        Conversions<Unit::AngularAcceleration, Unit::AngularAcceleration::RevolutionPerSquareHour>::
            ToStandard<NumericType>      },
+})
 };
 
 }  // namespace Internal
